@@ -1073,10 +1073,11 @@ def svd_lowrank_case(ctx, idx, sym):
     ht = F.redesign_svd(rng, ht, flatL, flatR, values=lambda k, i: [0.8 ** (j + i / nsec) for j in range(k)])
     csc = F.draw_scale(rng)
     if big and csc != 1.0:
-        # scipy's svds works with A^H A: for ||a|| ~ 1e+-150 the squares leave the double range and ARPACK loses accuracy (observed 0.4 %
-        # at 1e-150) - a limit of the third-party solver, not judged; blocks that go through ARPACK get moderate factors only
-        csc = 1e-60 if csc < 1 else 1e60
-        ctx.count("lowrank_arpack_moderate_scale_only")
+        # scipy's svds runs ARPACK on A^H A, whose convergence test is absolute below eps^(2/3): for ||a|| ~ 1e-60 the leading
+        # singular values come out with relative error ~1e-6 (0.4 % at 1e-150).  A limit of the third-party solver, reported, not
+        # judged: operands whose blocks go through ARPACK keep their natural scale
+        csc = 1.0
+        ctx.count("unjudged:arpack-at-extreme-scale")
     if csc != 1.0:
         ht = F.scaled(ht, csc)
         ctx.count("scaled_operands")
